@@ -99,7 +99,7 @@ CONFIGS = {
 
 PLAN = {
     "C01": dict(quick=["shapes3", "seeds3"], thorough=["shapes3", "seeds3", "lin4", "ignore3", "oog3"],
-                drivers=["forced", "run", "closure"]),
+                drivers=["forced", "run", "closure", "incr"]),
     "C02": dict(quick=["kinds3q", "miss3q", "dis3q"], thorough=["kinds3", "rules3", "miss3q", "dis3q", "shapes3", "ignore3"],
                 drivers=["forced", "run"]),
     "C03": dict(quick=["faults3q", "faults3c", "elems3"], thorough=["faults3", "faults3b", "faults3c", "faults4", "rules3", "elems3full"],
@@ -175,7 +175,7 @@ def run(prop, tier):
             r.cases = []
             models.append(r)
     emitted = len(raw)
-    cap = (8000 if len(plan["drivers"]) > 2 else 30000) if tier == "quick" else (120000 if len(plan["drivers"]) > 2 else 300000)
+    cap = (8000 if len(plan["drivers"]) > 4 else (20000 if len(plan["drivers"]) > 2 else 30000)) if tier == "quick" else (120000 if len(plan["drivers"]) > 2 else 300000)
     rng.shuffle(raw)
     # the model runs stay exhaustive; the replay takes a VERIF_SEED-determined sample when over budget
     for name, i, line in raw[:cap]:
@@ -219,7 +219,7 @@ def run(prop, tier):
                 continue
             first = ts[0]
             traces.append(dict(id=first["id"].split("/")[0] + "/same", prog=first["prog"], ss=first["ss"], mode="single",
-                               closure=False,
+                               closure=False, strict=True,
                                workers=1, final=None,
                                events=[dict(ev="same", ra=first["id"], rb=t["id"], a=first["final"], b=t["final"])
                                        for t in ts[1:]]))
@@ -227,6 +227,8 @@ def run(prop, tier):
         print("cross-run comparisons: %d" % nsame)
     for t in traces:
         t.pop("final", None)
+        if prop != "C04":
+            t["strict"] = False     # the split into sub-graphs is C04's; the other checks take it as observed
     print("timing: drivers %.1fs, %d traces" % (time.time() - t1, len(traces)))
     t1 = time.time()
     val = lib.validate_traces("DrTrace", "DrTrace.cfg", traces)
